@@ -54,8 +54,12 @@ def check(ctx, world):
                         continue
                     # B1 conditions on the key path
                     odd = []
+                    inputs = set(cm.syms.values()) | {cm.msg}
                     for (t, p, _) in o.state.pc[base:]:
-                        st = subterms(t)
+                        from ..terms import subst
+                        st = subterms(subst(t, {own: Sym("<own outbound>")}))
+                        if not any(x in inputs for x in st):
+                            continue                     # not a condition on the session's inputs
                         if any(x == sidebyte for x in st) and is_app(t, "Eq", "NotEq", "In", "NotIn"):
                             continue                     # side comparison
                         if is_app(t, "Eq", "NotEq") and own in t.args:
